@@ -75,10 +75,89 @@ def run_(chk, tier):
     for i in (0, 1, 4):
         chk.sample({"derive": inputs[i]["derive"], "item": inputs[i]["item"], "expansion_sha": hex(hash(fresh[i]) & 0xffffffff), "expansion_len": len(fresh[i])})
     chk.sample({"history": [inputs[i]["derive"] for i in seqs[len(seqs) // 2]], "verdict": "last expansion equals fresh-process expansion"})
+    corpus(chk, thorough)
     if thorough:
         real_pipeline(chk, inputs)
     chk.assumptions += ["hash seeds cannot be enumerated or controlled from outside std; what is exhaustive is the history dimension (all sequences up to the bound) and the repetition over fresh processes",
                         "expansion text of the in-process seam equals what the proc-macro returns to rustc (same functions; the thorough tier also compares rustc's -Zunpretty=expanded output)"]
+
+
+def corpus_requests(thorough):
+    """A broad corpus of derive inputs: C01's supported-shape space (every derive x templates x generics), C17's documented
+    attribute spellings, and C09's Error field layouts (2 fields quick / 3 fields thorough)."""
+    import c01
+    import c09
+    import c17
+    reqs = list(c01.build(thorough)[4])
+    for d, desc, forms in c17.rewrites():
+        reqs += [{"derive": d, "item": f} for f in forms]
+    for named, fields in c09.layouts(3 if thorough else 2):
+        for container in ("struct", "enum"):
+            reqs.append({"derive": "Error", "item": c09.item_text(named, fields, container, lambda f, i: ("my::Backtrace" if f["ty"] == "bt" else "E%d" % i))})
+    seen, out = set(), []
+    for q in reqs:
+        k = (q["derive"], q["item"])
+        if k not in seen:
+            seen.add(k)
+            out.append(q)
+    return out
+
+
+def svc_order(exe, reqs, order, serial, threads, pad):
+    env = base_env()
+    env["VERIF_PAD"] = "x" * pad
+    env["RAYON_NUM_THREADS"] = str(threads)
+    lines = "\n".join(json.dumps({"id": i, "derive": reqs[i]["derive"], "item": reqs[i]["item"]}) for i in order) + "\n"
+    p = subprocess.run([exe, "svc"] + (["--serial"] if serial else []), input=lines, stdout=subprocess.PIPE, stderr=subprocess.PIPE, text=True, env=env, timeout=900)
+    if p.returncode != 0:
+        raise MachineryError("svc failed on the C19 corpus: rc=%s %s" % (p.returncode, p.stderr[-400:]))
+    out = {}
+    for l in p.stdout.splitlines():
+        if l.strip():
+            r = json.loads(l)
+            out[r["id"]] = (r["k"], r.get("out") or r.get("msg") or "")
+    if len(out) != len(reqs):
+        raise MachineryError("svc returned %d results for %d requests" % (len(out), len(reqs)))
+    return out
+
+
+def corpus(chk, thorough):
+    """Every input of a broad corpus expanded in several processes that differ in what was expanded before it on the same
+    thread (order, interleaving, thread count): the result (tokens or diagnostic) must be the same text every time."""
+    exe = inproc_bin()
+    reqs = corpus_requests(thorough)
+    n = len(reqs)
+    fwd = list(range(n))
+    by_hash = sorted(fwd, key=lambda i: (hash_str(reqs[i]["item"]), i))
+    by_derive = sorted(fwd, key=lambda i: (reqs[i]["derive"], i))
+    stride = [i for r in range(7) for i in range(r, n, 7)]
+    configs = [("forward/serial", fwd, True, 1), ("reverse/serial", fwd[::-1], True, 1), ("by-item-hash/serial", by_hash, True, 1), ("grouped-by-derive-reversed/serial", by_derive[::-1], True, 1),
+               ("stride-7/serial", stride, True, 1), ("forward/16-threads", fwd, False, 16), ("reverse/3-threads", fwd[::-1], False, 3)]
+    if thorough:
+        configs += [("stride-7-reversed/serial", stride[::-1], True, 1), ("by-item-hash/5-threads", by_hash, False, 5), ("by-item-hash-reversed/serial", by_hash[::-1], True, 1),
+                    ("forward/2-threads", fwd, False, 2), ("grouped-by-derive/serial", by_derive, True, 1)]
+    with ThreadPoolExecutor(max_workers=4) as pool:
+        outs = list(pool.map(lambda c: svc_order(exe, reqs, c[1][1], c[1][2], c[1][3], (c[0] * 7919) % 50000), list(enumerate(configs))))
+    base = outs[0]
+    oks = sum(1 for v in base.values() if v[0] == "ok")
+    for (name, order, serial, threads), o in zip(configs[1:], outs[1:]):
+        for i in fwd:
+            chk.count(states=1, transitions=1)
+            if o[i] != base[i]:
+                chk.outcome("corpus-order-dependent")
+                chk.violation("corpus: expansion depends on process / expansion order: %s" % reqs[i]["derive"], {"input": reqs[i], "orders": ["forward/serial", name]},
+                              first_diff(base[i][1], o[i][1]) if o[i][0] == base[i][0] else "outcome kind %s vs %s" % (base[i][0], o[i][0]))
+            else:
+                chk.outcome("corpus-stable")
+    chk.part("corpus", inputs=n, expanding_ok=oks, diagnostics=n - oks, derives=len({q["derive"] for q in reqs}), processes=len(configs), orders=[c[0] for c in configs],
+             note="sources: C01 supported-shape space, C17 documented attribute spellings, C09 Error layouts; each configuration is one fresh process expanding the whole corpus in the named order")
+
+
+def hash_str(s):
+    h = 1469598103934665603
+    for ch in s.encode():
+        h = ((h ^ ch) * 1099511628211) & 0xFFFFFFFFFFFFFFFF
+    return h
 
 
 def first_diff(a, b):
